@@ -16,12 +16,62 @@ package store
 //@   order clog_flushed_before_sync: s.cLog.Flush before s.cLog.Sync
 //@   order clog_synced_before_frontier: s.cLog.Sync before store s.committedTxID
 //@   order clog_synced_before_commit_ack: s.cLog.Sync before s.commitWHub.DoneUpto
+// C02 value contract (owner con-c07; same clauses as (*ImmuStore).mayCommit in zz_verif_contracts_c07.go: the commit part of
+// sync() is the same code after the flushes). Loop 1 ranges over the value logs, loop 2 is the commit loop.
+//@   divmod abstract
+//@   requires wf: spec_csWF(s)
+//@   requires elems: forall(k, 0, len(s.cLogBuf.buf), s.cLogBuf.buf[k] != nil)
+//@   requires inv: spec_csInv(s)
+//@   ensures mono: s.committedTxID >= old(s.committedTxID)
+//@   ensures ok_id: r0 == nil && old(s.inmemPrecommittedTxID) != old(s.committedTxID) ==> s.committedTxID == old(spec_allowed(s))
+//@   ensures ok_idle: old(s.inmemPrecommittedTxID) == old(s.committedTxID) ==> r0 == nil && s.committedTxID == old(s.committedTxID)
+//@   ensures ok_same: r0 == nil && (old(spec_allowed(s)) == old(s.committedTxID) || old(s.inmemPrecommittedTxID) == old(s.committedTxID)) ==> s.committedAlh == old(s.committedAlh)
+//@   ensures ok_alh: r0 == nil && old(spec_allowed(s)) != old(s.committedTxID) && old(s.inmemPrecommittedTxID) != old(s.committedTxID) ==> s.committedAlh == commitUpToTxAlh
+//@   ensures bad_id: r0 != nil ==> s.committedTxID == old(s.committedTxID)
+//@   ensures bad_alh: r0 != nil ==> s.committedAlh == old(s.committedAlh)
+//@   ensures bad_rpos: r0 != nil || old(spec_allowed(s)) == old(s.committedTxID) ==> s.cLogBuf.rpos == old(s.cLogBuf.rpos)
+//@   ensures bad_full: r0 != nil || old(spec_allowed(s)) == old(s.committedTxID) ==> s.cLogBuf.full == old(s.cLogBuf.full)
+//@   ensures keep_buf: s.cLogBuf == old(s.cLogBuf)
+//@   ensures keep_bufbuf: s.cLogBuf.buf == old(s.cLogBuf.buf)
+//@   ensures keep_wpos: s.cLogBuf.wpos == old(s.cLogBuf.wpos)
+//@   ensures keep_pid: s.inmemPrecommittedTxID == old(s.inmemPrecommittedTxID)
+//@   ensures keep_palh: s.inmemPrecommittedAlh == old(s.inmemPrecommittedAlh)
+//@   ensures keep_sz: s.precommittedTxLogSize == old(s.precommittedTxLogSize)
+//@   ensures keep_allow: s.commitAllowedUpToTxID == old(s.commitAllowedUpToTxID)
+//@   ensures keep_ext: s.useExternalCommitAllowance == old(s.useExternalCommitAllowance)
+//@   assigns internal, s, s.cLogBuf
+//@   loop 2 invariant range: 0 <= i && (i == 0 || i <= txsCountToBeCommitted)
+//@   loop 2 invariant f_buf: s.cLogBuf == old(s.cLogBuf)
+//@   loop 2 invariant f_bufbuf: s.cLogBuf.buf == old(s.cLogBuf.buf)
+//@   loop 2 invariant f_rpos: s.cLogBuf.rpos == old(s.cLogBuf.rpos)
+//@   loop 2 invariant f_wpos: s.cLogBuf.wpos == old(s.cLogBuf.wpos)
+//@   loop 2 invariant f_full: s.cLogBuf.full == old(s.cLogBuf.full)
+//@   loop 2 invariant f_arr: unchanged(s.cLogBuf.buf)
+//@   loop 2 invariant f_ent: i > 0 ==> unchanged(s.cLogBuf.buf[(s.cLogBuf.rpos + i) % len(s.cLogBuf.buf)])
+//@   loop 2 invariant zero: i == 0 ==> commitUpToTxID == 0
+//@   loop 2 invariant last_id: i > 0 ==> commitUpToTxID == s.cLogBuf.buf[(s.cLogBuf.rpos + i) % len(s.cLogBuf.buf)].txID
+//@   loop 2 invariant last_alh: i > 0 ==> commitUpToTxAlh == s.cLogBuf.buf[(s.cLogBuf.rpos + i) % len(s.cLogBuf.buf)].alh
+//@   loop 2 decreases txsCountToBeCommitted - i
+//@   loop 1 invariant g_buf: s.cLogBuf == old(s.cLogBuf)
+//@   loop 1 invariant g_bufbuf: s.cLogBuf.buf == old(s.cLogBuf.buf)
+//@   loop 1 invariant g_rpos: s.cLogBuf.rpos == old(s.cLogBuf.rpos)
+//@   loop 1 invariant g_wpos: s.cLogBuf.wpos == old(s.cLogBuf.wpos)
+//@   loop 1 invariant g_full: s.cLogBuf.full == old(s.cLogBuf.full)
+//@   loop 1 invariant g_arr: unchanged(s.cLogBuf.buf)
+//@   loop 1 invariant g_cid: s.committedTxID == old(s.committedTxID)
+//@   loop 1 invariant g_pid: s.inmemPrecommittedTxID == old(s.inmemPrecommittedTxID)
+//@   loop 1 invariant g_allow: s.commitAllowedUpToTxID == old(s.commitAllowedUpToTxID)
+//@   loop 1 invariant g_ext: s.useExternalCommitAllowance == old(s.useExternalCommitAllowance)
+//@   loop 1 invariant g_cLog: s.cLog == old(s.cLog)
+//@   loop 1 invariant g_esz: s.cLogEntrySize == old(s.cLogEntrySize)
 
 // The per-value-log closure of sync(): a value log is flushed before it is fsynced, and the closure reports success
 // only after the fsync succeeded (sync() returns the closure's error before touching the tx log).
 //@ func (*ImmuStore).sync$1
 //@   order vlog_flushed_before_sync: vLog.Flush before vLog.Sync
 //@   order vlog_synced_before_ok: vLog.Sync before return nil
+// (con-c07) the closure touches one value log only (assumed frames of fetchVLog/releaseVLog/Appendable): checked frame.
+//@   assigns nothing
 
 // commit(): the caller gets a nil error (the acknowledgement) only after the commit watcher reported the transaction
 // as committed, which in synced mode happens in sync() after the commit-log fsync (rule clog_synced_before_commit_ack).
